@@ -71,7 +71,10 @@ class _Proc:
         self.result = None
         self.label = None
         self.fresh = False      # a (re)load happened, next data read is a step boundary
-        self.fresh2 = False     # a new pack was written, next read of packs/ is a step boundary
+        self.fresh2 = False     # next read of packs/ is a step boundary (packer/reader data phase, autopack source read)
+        self.fresh3 = False     # reader: next read of a .cix (CHK inventory pages) is a step boundary
+        self.role = None
+        self.loads = 0
         self.haslock = False
         self.obsoleting = False
         self.trace = []
@@ -84,8 +87,9 @@ class _Sched:
         self.back = threading.Semaphore(0)
         self.holder = None
 
-    def spawn(self, pid, fn):
+    def spawn(self, pid, fn, role=None):
         p = _Proc(pid, fn)
+        p.role = role
         self.procs[pid] = p
 
         def run():
@@ -177,6 +181,9 @@ def _register():
             elif r.startswith("packs/") and p.fresh2:
                 p.fresh2 = False
                 _vyield("read")
+            elif r.startswith("indices/") and r.endswith(".cix") and p.fresh3:
+                p.fresh3 = False
+                _vyield("read")
 
         def get(self, relpath):
             r = _rel(self, relpath)
@@ -185,6 +192,14 @@ def _register():
                 if not p.haslock:
                     _vyield("load")
                     p.fresh = True
+                    p.loads += 1
+                    # pack(): planning (index key counts) and the packer's source reads are two phases,
+                    # re-armed by every reload because _try_pack_operations restarts;
+                    # reader: index phase, data phase, CHK-walk phase, armed once
+                    if p.role == "pack" or (p.role == "read" and p.loads == 1):
+                        p.fresh2 = True
+                    if p.role == "read" and p.loads == 1:
+                        p.fresh3 = True
             else:
                 self._data_read(r, p)
             return super().get(relpath)
@@ -276,9 +291,22 @@ def _pack(repo):
 
 
 def _read(repo):
+    """all_revision_ids (revision indices), then every revision + its lazily loaded revision tree
+    (pack data, inventory index), then a walk over every inventory (CHK pages through the .cix indices)."""
     with repo.lock_read():
         ids = sorted(repo.all_revision_ids())
-        return sorted(_revno(repo.get_revision(i).revision_id) for i in ids)
+        revs = [repo.get_revision(i).revision_id for i in ids]
+        trees = [repo.revision_tree(i) for i in ids]
+        for t in trees:
+            t.root_inventory.root_id          # inventory text read, CHK root key known, pages not read
+        # every "process" of the model has its own CHK page cache; in this single OS process the cache is
+        # global (and filled by the other operations), so it is dropped before the walk
+        from bzrformats import chk_map
+        chk_map.clear_cache()
+        for t in trees:
+            for _path, ie in t.iter_entries_by_dir():
+                ie.file_id
+        return sorted(_revno(r) for r in revs)
 
 
 def _index_revs(dirpath, name):
@@ -358,7 +386,7 @@ def _run_sched(inp):
                 fn = lambda: _pack(Repository.open(url))
             else:
                 fn = lambda: _read(Repository.open(url))
-            s.spawn(pid, fn)
+            s.spawn(pid, fn, r[0])
         for pid in inp["sched"]:
             s.step(pid)
         s.finish()
@@ -460,7 +488,7 @@ R = ["read"]
 # the refuting schedule of Theory/PackNames.v (relist_witness): two packers produce the
 # identical pack, an auto-packing committer retires it in between
 WITNESS = {"kind": "sched", "base": B9, "roles": [P, P, C(10)],
-           "sched": [1, 1, 1] + [0] * 9 + [2] * 12 + [1] * 6}
+           "sched": [1, 1, 1, 1] + [0] * 10 + [2] * 12 + [1] * 6}
 
 SCENARIOS = [
     (B2, [C(10), C(11)]), (B2, [C(10), P]), (B2, [P, R]), (B2, [P, P]), (B2, [C(10), P, R]),
@@ -496,7 +524,7 @@ def cases(rng, tier):
             yield {"kind": "reload", "at": a, "cur": c, "disks": su}
     # (b) schedules: context-bounded (one and two preemptions) then random
     scen = SCENARIOS
-    per = 30 if tier == "quick" else 120
+    per = 18 if tier == "quick" else 120
     for base, roles in scen:
         n = len(roles)
         # one preemption: p runs k steps, then q runs to completion, then the rest
@@ -504,7 +532,7 @@ def cases(rng, tier):
         pairs = [(p, q) for p in range(n) for q in range(n) if p != q]
         picks = [(p, q, k) for (p, q) in pairs for k in ks]
         rng.shuffle(picks)
-        for p, q, k in picks[: (30 if tier == "quick" else len(picks))]:
+        for p, q, k in picks[: (18 if tier == "quick" else len(picks))]:
             yield {"kind": "sched", "base": base, "roles": roles, "sched": [p] * k + [q] * STEPS}
         for _ in range(per):
             # random: bursts of random length
@@ -563,10 +591,15 @@ def oracle(inp, obs):
     must = set(base_revs)
     for r, res in zip(inp["roles"], results):
         if str(res[0]) == "fail":
-            # a failed commit did not commit and a failed pack() loses nothing: not what C05 states
-            # (the model predicts these failures too; they are compared by the correspondence run)
             if r[0] == "read":
                 return "reader failed: it could not find the data of its view even after reloading"
+            if not obs[5]:
+                # every pack that vanished was replaced by listed, present packs (nothing collided), so
+                # reload-and-retry must let the operation finish
+                return (f"operation {r} failed although every vanished pack was replaced by listed packs: "
+                        "reload-and-retry did not recover")
+            # after a pack-name collision a pack()/commit may fail (allocate clash); it loses nothing and
+            # is compared with the model's prediction
             continue
         if r[0] == "commit":
             must |= set(r[1])
